@@ -170,6 +170,11 @@ func prepare(r *mon.Run, gc GroupCase) *prepared {
 		p.idHex = make([]string, n)
 		for i := range res.IDs {
 			p.idHex[i] = res.IDs[i].GetHexString()
+			if res.IDs[i].GetBigInt().Cmp(curveR) >= 0 {
+				r.Count("member_ids_ge_group_order", 1)
+			} else {
+				r.Count("member_ids_lt_group_order", 1)
+			}
 		}
 		for _, mh := range gc.Msgs {
 			msg := mustHex(mh)
